@@ -156,6 +156,11 @@ var corruptKinds = []string{"trunc", "flip", "zero", "dup", "splice"}
 func sweepFaults(src *choice.Src, ref *Result, w *World) []simrt.Fault {
 	var fs []simrt.Fault
 	for _, op := range ref.Ops {
+		// a signal just before this operation: SIGTERM on every one, SIGINT on a drawn third
+		fs = append(fs, simrt.Fault{At: op.Seq, OpKind: op.Kind, Kind: "SIGTERM"})
+		if src.Chance("sweep.sigint", 1, 3) {
+			fs = append(fs, simrt.Fault{At: op.Seq, OpKind: op.Kind, Kind: "SIGINT"})
+		}
 		for _, k := range faultKinds[op.Kind] {
 			switch op.Kind {
 			case "write", "read":
@@ -193,6 +198,34 @@ func judgeFaulted(t Target, w *World, ref *Result, fw *World, fr *Result, st *St
 	if ref.Exit == 0 && outIsFile(w) {
 		o := ref.Out
 		g = &o
+	}
+	for _, f := range fr.Fired {
+		if f.Kind != "SIGTERM" && f.Kind != "SIGINT" {
+			continue
+		}
+		if fr.Exit == -1 || fr.Exit == -2 {
+			return contract(fw, fr, ref.Exit, g)
+		}
+		if fr.Killed != "" {
+			// the process died at that operation (no handler): whatever it had done so far is what there is.
+			// The -o path holds what it held before, or the complete source (the kill came after the
+			// commit) - never anything in between
+			if fr.Out.Same(fr.OutBefore) || (g != nil && fr.Out.Sha == g.Sha && ref.Exit == 0) {
+				return "", ""
+			}
+			return "killed:out-neither-old-nor-complete", fmt.Sprintf("the process was killed by %s at that operation; -o before %s, after %s, complete source %s", fr.Killed, obs(fr.OutBefore), obs(fr.Out), map[bool]string{true: obs(*orEmpty(g)), false: "(the world is rejected)"}[g != nil])
+		}
+		// a handler took the signal and the program went on: it chose its exit status itself, so status and
+		// file effects must agree as always (the report of an interrupted run is not judged)
+		switch {
+		case fr.Exit == 0 && g != nil && fr.Out.Sha != g.Sha:
+			return "exit0-incomplete-output", fmt.Sprintf("after handling %s the command exited 0 without the complete source at -o", f.Kind)
+		case fr.Exit == 0 && ref.Exit != 0:
+			return "fault-turned-rejection-into-success", "the fault-free run rejects this world, the interrupted run exits 0"
+		case fr.Exit != 0 && !fr.Out.Same(fr.OutBefore):
+			return "out-changed-on-failure", fmt.Sprintf("after handling %s the command exited %d, yet the -o path changed: before %s, after %s", f.Kind, fr.Exit, obs(fr.OutBefore), obs(fr.Out))
+		}
+		return "", ""
 	}
 	corruptFired := false
 	for _, f := range fr.Fired {
@@ -281,6 +314,13 @@ func judgeFaulted(t Target, w *World, ref *Result, fw *World, fr *Result, st *St
 		}
 	}
 	return "", ""
+}
+
+func orEmpty(o *FileObs) *FileObs {
+	if o == nil {
+		return &FileObs{}
+	}
+	return o
 }
 
 func cleanEq(a, b string) bool { return filepath.Clean(a) == filepath.Clean(b) }
@@ -385,6 +425,37 @@ func CheckC10(t Target, src *choice.Src, st *Stats) *Violation {
 		}
 		if fr.Exit == 0 && fr.Out.Sha != ref.Out.Sha {
 			return c10Violation("nofault:exit0-incomplete-output:differs-from-fresh-path:"+w.OutKind, fmt.Sprintf("exit 0, but the bytes at the pre-existing -o (%s, %d bytes) differ from what the same build writes to a fresh path (%d bytes)", w.OutKind, ref.Out.Size, fr.Out.Size), w, fw)
+		}
+	}
+	// a history: the same -o was written a moment ago by a successful build of a slightly different set of
+	// inputs (one more file and pattern) with the same binary; the inputs are older than that file. The
+	// rebuild must put there what the same world writes to a fresh path
+	if ref.Exit == 0 && g != nil && w.OutKind == "file" && !w.AbsInputs && src.Chance("history", 1, 3) {
+		pw := w.Clone()
+		pw.PreOut = nil
+		pw.Files = append(pw.Files, InFile{Path: "zz_previous_only/extra.yaml", Content: "parameters:\n  onlyInThePreviousBuild: 1\n"})
+		pw.Patterns = append(pw.Patterns, "zz_previous_only/extra.yaml")
+		pr := Exec(t, pw)
+		if st != nil {
+			st.note(pw, pr)
+		}
+		if pr.Exit == 0 && pr.Out.Exists && pr.Out.Sha != g.Sha {
+			hw := w.Clone()
+			hw.PreOut = &InFile{Path: w.Out, Content: pr.Out.Data, Mode: 0644}
+			hr := Exec(t, hw)
+			if st != nil {
+				st.note(hw, hr)
+				st.Probes["rebuilds-over-a-previous-generation-of-other-inputs"]++
+			}
+			fw := w.Clone()
+			fw.OutKind, fw.PreOut, fw.Out = "file", nil, "fresh_output_twin.go"
+			fr := Exec(t, fw)
+			if st != nil {
+				st.note(fw, fr)
+			}
+			if fr.Exit == 0 && (hr.Exit != 0 || hr.Out.Sha != fr.Out.Sha) {
+				return c10Violation("history:exit0-incomplete-output:previous-generation-kept", fmt.Sprintf("-o held the output of an earlier build of other inputs (one more file); the rebuild ended with exit %d and -o %s, a fresh path gets %s", hr.Exit, obs(hr.Out), obs(fr.Out)), w, hw, fw)
+			}
 		}
 	}
 	if why := mustFail(w); why != "" && ref.Exit == 0 {
@@ -596,6 +667,13 @@ func tail(s string, n int) string {
 func replayC10(t Target, v *Violation) (string, string) {
 	w := v.Worlds[0]
 	ref := Exec(t, w)
+	if strings.HasPrefix(v.Sig, "history:") && len(v.Worlds) == 3 {
+		hr, fr := Exec(t, v.Worlds[1]), Exec(t, v.Worlds[2])
+		if fr.Exit == 0 && (hr.Exit != 0 || hr.Out.Sha != fr.Out.Sha) {
+			return v.Sig, fmt.Sprintf("rebuild: exit %d, -o %s; fresh path: %s", hr.Exit, obs(hr.Out), obs(fr.Out))
+		}
+		return "", ""
+	}
 	if strings.HasPrefix(v.Sig, "nofault:fails-only-because-of-what-is-at-o") && len(v.Worlds) == 2 {
 		fr := Exec(t, v.Worlds[1])
 		if ref.Exit != 0 && fr.Exit == 0 {
